@@ -51,6 +51,7 @@ ObservedOK(e, r, is) ==
      ELSE e.insts = is.insts                                                   \* nobody else's state moved
 MatchR(e) ==
   LET x == StepT(e)  b2 == IF e.op = "Start" THEN [j |-> e.batJ, c |-> e.batC] ELSE bat IN
+  /\ ~e.panicked
   /\ e.retOK = x.ok
   /\ (e.op = "Start" \/ ObservedOK(e, x.reg, x))
 TInit == RInit /\ l = 1 /\ bad = <<>> /\ bat = [j |-> <<>>, c |-> <<>>]
